@@ -225,6 +225,23 @@ pub fn scenarios(tier: &str) -> Vec<Scenario> {
         slash_checked(&mut w, 0, PSel::Boundary, true);
         finish(&mut w);
     }));
+    v.push(Scenario::new("slash_of_unbonding_already_due_but_not_yet_paid", &["slash_applied", "unbonding_paid", "end"], || {
+        // found missing by seed C16d: with an unbonding time of zero an unbonding is due at once but stays
+        // pending until the next block update; a slash in between scales it like any other pending one
+        let mut cfg = Cfg::default();
+        cfg.unbonding = 0;
+        let mut w = Stk::new(cfg);
+        for op in [Op::Delegate { d: 0, v: 0 }, Op::Delegate { d: 1, v: 0 }, Op::Undelegate { d: 0, v: 0 }] {
+            if !w.apply(&op, AMT) {
+                return;
+            }
+        }
+        if w.unb.len() != 1 {
+            cut("setup undelegation failed");
+        }
+        slash_checked(&mut w, 0, PSel::Boundary, true);
+        finish(&mut w);
+    }));
     if tier == "thorough" {
         v.push(Scenario::new("single_slash_symbolic_fraction", &["slash_applied", "rejected_above_one", "end"], || {
             let mut w = Stk::new(Cfg::default());
